@@ -203,3 +203,19 @@ func enumFail(t *testing.T, property string, j *Journal, format string, a ...int
 	fmt.Fprintf(os.Stdout, "VIOLATION property=%s replay=%s\n", property, p)
 	t.Fatalf("%s", msg)
 }
+
+// watchdog runs f in a goroutine and reports whether it failed to return within d. A hung f
+// keeps its goroutine (and whatever locks it holds); the case is failed by the caller.
+func watchdog(d time.Duration, f func()) (hung bool) {
+	done := make(chan struct{})
+	go func() {
+		defer close(done)
+		f()
+	}()
+	select {
+	case <-done:
+		return false
+	case <-time.After(d):
+		return true
+	}
+}
